@@ -80,7 +80,7 @@ def gen_cases(rng, n, tier):
 
 
 # ------------------------------------------------------------------------------ program level
-def gen_compare_prog(rng):
+def gen_compare_prog(rng, nan_bias=False):
     """Operands (integers, fractions, negatives, NaN from an empty stack) prepared by area-less commands,
     then 2-5 plain pushes carrying ?/! areas whose count lies among the operands."""
     counts = [rng.choice([0, 0, 1, 1, 2, 3, 5, 7, 12, 33, 100, 200, rng.randint(0, 200)]) for _ in range(rng.randint(1, 2))]
@@ -89,6 +89,8 @@ def gen_compare_prog(rng):
     for _ in range(nops):
         c = rng.choice(counts)
         k = rng.random()
+        if nan_bias and rng.random() < 0.3 and prog:
+            k = 0.95            # a stored NaN (1/0 pushed back onto the non-empty stack) between real operands
         if k < 0.35:
             v = max(0, c + rng.choice([-1, 0, 0, 1, -c, c]))
             prog += push_value(v)
@@ -121,7 +123,7 @@ def gen_compare_prog(rng):
         prog.append((0, h, c // h if c else 0, a))
         if rng.random() < 0.3:
             prog += push_value(rng.choice(counts))
-    if rng.random() < 0.6:
+    if nan_bias or rng.random() < 0.6:
         prog = epilogue(rng, prog)
     return prog, set(cmp_idx)
 
@@ -191,6 +193,59 @@ def _case(i):
                 pass
 
 
+def _compiled_case(i):
+    """The emitted comparison code (compile.rs area()): a compiled compare program must take the same
+    branches.  Attribution: the same program with all areas removed (no comparison at all) is compiled as
+    a control; only when the control behaves and the full program does not is the divergence put on the
+    emitted ?/! code."""
+    from . import compilecheck as K
+    tier, seed, rundir = _RUN['tier'], _RUN['seed'], _RUN['dir']
+    rng = C.rng_for(seed, PID, 'compiled', tier, i)
+    res = {'i': i, 'items': [], 'hist': {}, 'status': 'reject'}
+    prog, cmp_idx = gen_compare_prog(rng, nan_bias=rng.random() < 0.6)
+    control = [(t, h, d, None) for (t, h, d, a) in prog]
+    lim = Limits(steps=3000)
+    m, ro, re_, rend = P.admit(prog, '', lim)
+    mc, co, ce, cend = P.admit(control, '', lim)
+    if rend not in ('end', 'exit0', 'exit1') or cend not in ('end', 'exit0', 'exit1'):
+        return res
+    text = P.render_text(rng, prog)
+    ctext = P.render_text(rng, control)
+    if text is None or ctext is None:
+        return res
+    res['status'] = 'ok'
+    level = rng.choice([0, 0, 1, 2])
+    wd = os.path.join(rundir, 'k%d_%d' % (os.getpid(), i))
+    os.makedirs(wd + '/a', exist_ok=True)
+    os.makedirs(wd + '/b', exist_ok=True)
+    try:
+        pa = P.write_program(wd + '/a', 'p.hyeong', text)
+        pb = P.write_program(wd + '/b', 'p.hyeong', ctext)
+        sa, ea, _ = K.build_exe(wd + '/a', pa, level)
+        sb_, eb, _ = K.build_exe(wd + '/b', pb, level)
+        if sa != 'ok' or sb_ != 'ok':
+            res['hist']['compiled_not_built(see C03)'] = 1
+            return res
+        oa = K.run_exe(ea, b'')
+        ob = K.run_exe(eb, b'')
+
+        def same(o, out, err, end):
+            return o.kind == P.expect_from_ref(end) and o.out == out and o.err == err
+        res['hist']['compiled_programs'] = 1
+        res['hist']['compiled_comparisons'] = m.st['cmp_q_left'] + m.st['cmp_q_right'] + m.st['cmp_b_left'] + m.st['cmp_b_right']
+        if not same(ob, co, ce, cend):
+            res['hist']['compiled_control_differs(see C03)'] = 1
+            return res
+        if not same(oa, ro, re_, rend):
+            res['items'].append(('v', 'compiled-branch:' + C.sha(text), 'a compiled program takes a different ?/! branch', {
+                'program': text, 'level': level, 'expected': {'stdout': C.clip(ro), 'stderr': C.clip(re_), 'end': rend},
+                'observed': oa.brief(), 'control_without_areas_behaves': True}))
+        return res
+    finally:
+        import shutil
+        shutil.rmtree(wd, ignore_errors=True)
+
+
 def main(tier, seed):
     t0 = time.time()
     rep = C.Reporter(PID, tier, seed)
@@ -223,20 +278,29 @@ def main(tier, seed):
             keys.add(r['key'])
         if 'sample' in r and len(psamples) < 3 and r.get('ncmp', 0) >= 3:
             psamples.append(r['sample'])
+    # compiled programs (the emitted comparison code)
+    C.build(['numlib'])
+    nc = 128 if tier == 'quick' else 3000
+    chist = {}
+    for r in C.pmap(_compiled_case, list(range(nc)), chunksize=1):
+        rep.merge(r['items'])
+        C.add_hist(chist, r['hist'])
     cov = {
-        'evaluations': n + progs, 'distinct_nontrivial': distinct + len(keys),
+        'evaluations': n + progs + chist.get('compiled_programs', 0), 'distinct_nontrivial': distinct + len(keys),
         'rule': 'number level: ordered pairs over all sign combinations, integers vs fractions, equal values, values differing only in the '
                 'denominator, tiny relative differences, multi-limb cross products, NaN on either side: partial_cmp and == vs Fraction. '
                 'program level: programs whose ?/! areas sit on plain pushes with counts 1..200 and operands (ints, fractions, negatives, NaN) '
                 'on both sides of the count; hv_trace step records compared with the reference, divergences at comparison steps are violations. '
+                'compiled level: a slice of the same programs compiled (levels 0-2) next to a control without areas; a divergence of the full program while the control behaves is put on the emitted ?/! code. '
                 'distinct by script / program text; non-trivial = every pair, and programs that performed >= 1 comparison.',
         'samples': samples[:4] + psamples, 'number_level': {'pairs': n, 'histogram': hist},
         'program_level': {'programs': progs, 'comparisons_performed': ncmp, 'histogram': phist},
+        'compiled_level': chist,
     }
     assumptions = ['Fraction order is the oracle; NaN compares unordered and takes the right branch',
                    'program-level attribution: only divergences at a step whose command is a plain push with an area are judged here; others are left to C01/C06']
     minimum = {'pairs': (n, 5000), 'cmp:N': (hist.get('cmp:N', 0), 100), 'cmp:L': (hist.get('cmp:L', 0), 500),
-               'program comparisons': (ncmp, 1000),
+               'program comparisons': (ncmp, 1000), 'comparisons in compiled programs': (chist.get('compiled_comparisons', 0), 150),
                'fraction operands at ?': (phist.get('branch:?:frac:left', 0) + phist.get('branch:?:frac:right', 0), 100),
                'negative fractions within 1 of the count': (phist.get('negative_fraction_within_1_of_count', 0), 20)}
     return rep.finish(cov, assumptions, t0, minimum)
